@@ -253,6 +253,11 @@ def _execute_two(case):
         connect2 = {'poll': case['poll2'], 'ping_rate': 1,
                     'ping_timeout': case['fail_after'] / 1e6}
         steps2.append({'op': 'silence'})
+    elif fail == 'ping':
+        # (used by C14) the other connection gets a Ping meanwhile
+        steps2 += [S.send(peer.enc_frame(9, b'are you there'),
+                          after=case['fail_after']),
+                   S.eof(after=case['stall_us'] + 30000000)]
     else:
         steps2.append({'op': fail, 'after': case['fail_after']})
     sc = {'url': 'ws://example.test/', 'ws': {'compress': False},
@@ -288,6 +293,36 @@ def _execute_two(case):
         res.bad('C09/two_sessions/exception_escaped', '%s %s' % tr.escaped2)
     limit = case['fail_after'] + int(2 * case['poll2'] * 1e6) + 1000000
     disc = [e for e in tr.events2 if e.name == 'disconnected']
+    if fail == 'ping':
+        pings = [e for e in tr.events2 if e.name == 'ping']
+        s2 = w.socks[0]
+        wire2 = oracle.Wire(s2)
+        pos = 0
+        t_of = {}
+        for seq, now, data in s2.out:
+            t_of[pos] = now
+            pos += len(data)
+        pongs = [t_of.get(f.start) for f in wire2.frames
+                 if f.opcode == peer.OP_PONG]
+        if not pings or pings[0].t > limit:
+            res.bad('C14/two_sessions/ping_event_late',
+                    'Ping arrived at %.1f s, events of that connection %s' % (
+                        case['fail_after'] / 1e6,
+                        [(e.name, round(e.t / 1e6, 1))
+                         for e in tr.events2][-5:]))
+        if not pongs or pongs[0] is None or pongs[0] > limit:
+            res.bad('C14/two_sessions/pong_late_or_missing',
+                    'Ping arrived at %.1f s on the second connection; Pong '
+                    'written at %s (the first connection\'s send was '
+                    'stalled until %.0f s)' % (
+                        case['fail_after'] / 1e6,
+                        None if not pongs else '%.1f s' % (pongs[0] / 1e6),
+                        case['stall_us'] / 1e6))
+        res.nontrivial = sched.stats.get('stalled_writes', 0) > 0
+        res.sig = 'two|ping|%s' % case['fail_after']
+        res.sample = {'second_events': [(e.name, e.t)
+                                        for e in tr.events2][-6:]}
+        return res
     if not disc:
         res.bad('C09/two_sessions/no_terminal_event',
                 'second connection: %s' % names2[-5:])
